@@ -486,4 +486,40 @@ def rule_g(ctx: Ctx) -> None:
                 'having been found false must be followed by the is_derived(base_type.content, …) test on every path.')
 
 
-RULES = [rule_a, rule_b, rule_c, rule_d, rule_e, rule_f, rule_g]
+def rule_h(ctx: Ctx) -> None:
+    """A redefinition by restriction restricts the component it redefines.  The builder keeps the old state in `self.redefine` and
+    re-parses the component in place, so a self-reference must resolve to `self.redefine` (complex types, groups and attribute
+    groups do; the sibling for simple types must too, or the facets of the redefined type are lost)."""
+    rule = 'C14.h'
+    n = 0
+    f = ctx.idx.method('xmlschema.validators.simple_types.XsdAtomicRestriction', '_parse')
+    ctx.analysed(f.qualname)
+    g = cfg_of(ctx, f)
+    for node in g.nodes:
+        if not (node.kind == 'stmt' and isinstance(node.ast, ast.Assign) and text(node.ast.targets[0]) == 'base_type'):
+            continue
+        gs = guards(ctx, f, node)
+        if ('base_qname == self.name', 'T') in gs and (('self.redefine is None', 'F') in gs or ('self.redefine is not None', 'T') in gs):
+            n += 1
+            ok = text(node.ast.value) == 'self.redefine'
+            ctx.ob(rule, 'XsdAtomicRestriction._parse: a self-reference in a redefinition resolves to the redefined type', f.loc(node.ast), ok,
+                   '' if ok else f'`{text(node.ast)}`: the base of the redefinition is not the redefined type - T = xs:int maxInclusive 10 redefined with minInclusive 0 accepts 20, '
+                   'which the redefined T rejects', key='XsdAtomicRestriction._parse|redefine-base')
+    ctx.floor(rule, 'self-reference resolutions of simple type redefinitions', n, 1)
+    ct = ctx.idx.method('xmlschema.validators.complex_types.XsdComplexType', '_parse')
+    ok = any(isinstance(s_, ast.Assign) and text(s_.targets[0]) == 'self.base_type' and text(s_.value) == 'self.redefine' for s_ in walk_no_nested(ct.node))
+    ctx.ob(rule, 'XsdComplexType._parse: a self-reference in a redefinition resolves to the redefined type', ct.loc(), ok, '', key='XsdComplexType._parse|redefine-base')
+    b = ctx.idx.func('xmlschema.validators.builders.StagedMap._build_global')
+    ok = any(isinstance(s_, ast.Assign) and text(s_.targets[0]) == 'component.redefine' and 'copy' in text(s_.value) for s_ in walk_no_nested(b.node))
+    ctx.ob(rule, 'the builder keeps a copy of the redefined component in `redefine` before re-parsing it', b.loc(), ok, '', key='_build_global|redefine-copy', nontrivial=False)
+    ctx.explain('C14.h: sibling agreement on the base of a redefinition (simple types vs complex types): the value assigned under '
+                '`base_qname == self.name` with a redefine present is `self.redefine`.')
+
+
+def rule_i(ctx: Ctx) -> None:
+    """Restricted facets accept a subset: the pattern facets of the base steps stay in force (C02.k body)."""
+    from .c02 import rule_k as patterns_of_every_step
+    patterns_of_every_step(ctx, 'C14.i')
+
+
+RULES = [rule_a, rule_b, rule_c, rule_d, rule_e, rule_f, rule_g, rule_h, rule_i]
